@@ -15,6 +15,32 @@ impl<T: Eq + Hash + Debug> ReferenceCounter<T> {
         *counts.entry(t).or_insert(0) += 1;
     }
 
+    /// Increment the count of `t` and call `f` before any other thread can change a count.
+    pub fn inc_and<R, F: FnOnce() -> R>(&self, t: T, f: F) -> R {
+        let mut counts = self.counts.lock().unwrap();
+        *counts.entry(t).or_insert(0) += 1;
+        f()
+    }
+
+    /// Decrement the count of `t`.  When that drops the last reference, call `f` before any other
+    /// thread can take a new one, and return true.
+    pub fn dec_and<F: FnOnce()>(&self, t: T, f: F) -> bool {
+        let mut counts = self.counts.lock().unwrap();
+        match counts.entry(t) {
+            Entry::Occupied(mut entry) => {
+                if *entry.get() <= 1 {
+                    entry.remove();
+                    f();
+                    true
+                } else {
+                    *entry.get_mut() -= 1;
+                    false
+                }
+            }
+            Entry::Vacant(_) => false,
+        }
+    }
+
     pub fn dec(&self, t: T) -> bool {
         let mut counts = self.counts.lock().unwrap();
         match counts.entry(t) {
